@@ -1,21 +1,40 @@
 #!/usr/bin/env python3
-"""usage: tools/run_seeded.py <seeded-id> <ID> [<ID>...]   - apply /verif/seeded/<id>/patch.diff to /repo, run quick checks,
-revert, and record which checks reported a violation in /verif/seeded/<id>/meta.json (detected_by)."""
+"""usage: tools/run_seeded.py [--worktree DIR] <seeded-id> [<ID> ...]
+Runs quick checks against one seeded change and records the outcome in /verif/seeded/<id>/meta.json (detected_by).
+Without --worktree: the documented way - git -C /repo apply patch.diff, ./check <ID>, git -C /repo checkout -- .
+With --worktree DIR: applies the patch inside that scratch worktree of /repo and runs the checks with VERIF_REPO=DIR
+(development aid; /repo stays untouched, so several evaluations can run while other work goes on).
+If no check ids are given: the property the change breaks plus every check recorded as having caught it before."""
 import json, subprocess, sys, os
-sid = sys.argv[1]; checks = sys.argv[2:]
+args = sys.argv[1:]
+wt = None
+if args and args[0] == "--worktree":
+    wt = args[1]; args = args[2:]
+sid = args[0]; checks = args[1:]
 d = "/verif/seeded/" + sid
-out = subprocess.run(["/verif/tools/try_patch.sh", d + "/patch.diff"] + checks, capture_output=True, text=True).stdout
-print(out)
 meta = json.load(open(d + "/meta.json"))
-det = meta.get("detected_by") if isinstance(meta.get("detected_by"), dict) else {}
+old = meta.get("detected_by") if isinstance(meta.get("detected_by"), dict) else {}
+if not checks:
+    checks = sorted(set([meta["breaks_property"]] + [c for c, r in old.items() if r.get("violation")]))
+if wt:
+    cmd = ["/verif/tools/try_worktree.sh", wt, d + "/patch.diff"] + checks
+else:
+    cmd = ["/verif/tools/try_patch.sh", d + "/patch.diff"] + checks
+out = subprocess.run(cmd, capture_output=True, text=True).stdout
+print("== %s" % sid); print(out)
+det = dict(old)
 cur = None
 for line in out.splitlines():
     parts = line.split()
     if len(parts) >= 2 and parts[1].startswith("exit="):
         cur = parts[0]
         det[cur] = {"exit": int(parts[1][5:]), "violation": ("VIOLATION" in line)}
-    elif cur and line.strip().startswith("invariant=") or (cur and line.strip().startswith("signature=")):
+    elif cur and (line.strip().startswith("invariant=") or line.strip().startswith("signature=")):
         det[cur]["first"] = line.strip()
+    elif cur and line.startswith("HARNESS-ERROR"):
+        det[cur]["first"] = line.strip()[:200]
 meta["detected_by"] = det
-meta["what_ran"] = "git -C /repo apply patch.diff; ./check <ID> --tier quick for each listed ID (default VERIF_SEED); git -C /repo checkout -- ."
+head = subprocess.run(["git", "-C", "/verif", "rev-parse", "--short", "HEAD"], capture_output=True, text=True).stdout.strip()
+meta["what_ran"] = ("patch.diff applied to a checkout of /repo (%s); ./check <ID> --tier quick for each listed ID, default VERIF_SEED; "
+                    "reverted afterwards; last refreshed with /verif at %s" % ("scratch worktree via VERIF_REPO" if wt else "git -C /repo apply", head))
 json.dump(meta, open(d + "/meta.json", "w"), indent=1)
